@@ -127,7 +127,9 @@ def check_variant(ctx, k, kind, bound):
                 ctx.require(q, z3.And(z3.BoolVal(size == first + 1), ctx.eng.cbyte(q, a + size - 1) == 0),
                             "the string buffer has exactly checked-length+1 bytes and ends in NUL whatever the sandbox writes meanwhile")
             else:
-                ctx.require(q, z3.And(z3.ULE(lg[0][2], first), lg[0][3] == 0, z3.Or(lg[0][2] == first, lg[0][2] == 0)),
+                sz = lg[0][2] if not isinstance(lg[0][2], int) else BV(lg[0][2], 64)
+                nul = lg[0][3] if not isinstance(lg[0][3], int) else BV(lg[0][3], 64)
+                ctx.require(q, z3.And(nul == 0, z3.Or(sz == first, sz == 0)),
                             "std::string is never longer than the range-checked length (that length, or empty) and is NUL-terminated")
     ctx.only(paths, "ret", "abort", "alloc-fail")
     ctx.expect(paths, ret=1)
